@@ -25,7 +25,8 @@ RULE = (
     "level), sibling headers strictly increasing, note entries non-decreasing under the tuple of O keys (none = "
     "page path, then line number as a number), value selections = the distinct values of the group's notes "
     "(ascending when the order list is exactly alpha), count(x) = number of entries of x per group (checked "
-    "against the model and against the output of the same query without count).  Non-trivial = >= 3 matched notes "
+    "against the model and against the output of the same query without count); two queries per case also go "
+    "through the CLI (`zorg query` stdout, `zorg query -s` stored page) and must carry the same text.  Non-trivial = >= 3 matched notes "
     "and (>= 2 leaf groups or >= 2 distinct order keys among them); distinct by SHA-1 of (directory, query)."
 )
 ASSUMPTIONS = [
@@ -263,6 +264,32 @@ def check(case, rec: Rec) -> None:
             if info is None:
                 rec.label("skipped-unknown")
                 continue
+            qi = case["queries"].index(q)
+            if qi < 2:
+                # the same query through the CLI: stdout (qi 0) / a stored query page (qi 1) carry the same text
+                text = Q.render(q)
+                one = {"dir": case["dir"], "today": case["today"], "queries": [q]}
+                if qi == 0:
+                    with rec.sut("zorg-query"):
+                        r = env.zorg(zdir, "query", text)
+                    want = (info["out"] + "\n") if info["out"] else ""
+                    if r.code != 0 or r.out != want:
+                        raise Violation("cli-stdout-differs", f"`zorg query {text!r}` exit {r.code} printed\n{r.out}\n--- "
+                                        f"swog.execute returned\n{info['out']}", case=one)
+                    rec.label("cli-stdout")
+                else:
+                    with rec.sut("zorg-query-s"):
+                        r = env.zorg(zdir, "query", "-s", text)
+                    path = r.out.strip()
+                    if r.code != 0 or not path.endswith(".zoq") or not __import__("os").path.exists(path):
+                        raise Violation("cli-store-in-file", f"`zorg query -s {text!r}` exit {r.code}: {r.out!r}", case=one)
+                    body = open(path).read()
+                    head, _, rest = body.partition("\n\n")
+                    if not head.startswith(f"# {text}\n") or rest != info["out"]:
+                        raise Violation("cli-stored-page-differs", f"stored page for {text!r}:\n{body}\n--- swog.execute "
+                                        f"returned\n{info['out']}", case=one)
+                    __import__("shutil").rmtree(zdir / "zoq" / "tmp", ignore_errors=True)
+                    rec.label("cli-store-in-file")
             if q["select"]["count"]:
                 # metamorphic: count(x) per group == number of entries `S x` prints for the same W/O/G
                 q2 = dict(q, select=dict(q["select"], count=False))
